@@ -1418,7 +1418,11 @@ func (tc *typechecker) checkBuiltinCall(expr *ast.Call) []*typeInfo {
 				panic(tc.errorf(expr, "%s", err))
 			}
 		}
-		key.setValue(keyType)
+		if key.Nil() { // delete(m, nil)
+			tc.compilation.typeInfos[expr.Args[1]] = tc.nilOf(keyType)
+		} else {
+			key.setValue(keyType)
+		}
 		return nil
 
 	case "len":
